@@ -578,6 +578,123 @@ def cluster_history(rep, g, cases, stats, unequal=False):
                       'multiple.Cluster[caller-write]' + tag, nontrivial=True, klass='vice[Cluster%s,%s]' % (tag, g.flavour)))
 
 
+RULE += ('; scripted histories: constructor / reset_values with non-dyadic dt and lengths on a rounding edge of npts*dt (7, 14, 28, 56, 57, 111..115, 226 for 0.005*2^k; 3, 6, 12, 24, 29, 48, 53 for 0.025*2^k; '
+         '1001, 1003 for 0.001/0.004) plus random (dt, length) pairs; running_average with centred chunks around and above the record length, also after reset_values to a shorter record')
+
+
+# (dt, npts) for which the rounded product npts*dt lies just above npts steps of dt: an axis built from a float stop and step
+# (np.arange(0, npts*dt, dt)) would have npts+1 entries there; dt*[0..npts-1] has npts
+AXIS_PAIRS = [(0.005, 7), (0.01, 14), (0.02, 28), (0.01, 56), (0.005, 57), (0.02, 111), (0.01, 113), (0.005, 115), (0.02, 226),      # same lengths for 0.005 * 2^k
+              (0.025, 3), (0.05, 6), (0.1, 12), (0.2, 24), (0.05, 29), (0.1, 53), (0.025, 48),                                     # same lengths for 0.025 * 2^k
+              (0.001, 1001), (0.004, 1003)]
+
+
+def scripted_history(rep, g, cls, dt, n0, how, steps, cases, stats, tag):
+    """object history with a prescribed record length, time step and list of steps; steps = ('reset_values', npts) |
+    ('running_average', width) | ('time', None) | ('values', None); every step is emitted like a step of object_history
+    (caller arrays bit-exact, no shared buffer, numeric ndarray, len(values) = npts = len(time), time = dt*[0..npts-1])"""
+    import eqsig
+    g.dt = dt
+    caller = g.rec(n0)
+    with warnings.catch_warnings():
+        warnings.simplefilter('ignore')
+        if how == 'ctor':
+            s = getattr(eqsig, cls)(caller, dt)
+            first = '__init__'
+        else:
+            s = getattr(eqsig, cls)(np.zeros(4), dt)
+            s.reset_values(caller)
+            first = 'reset_values'
+    held = [('caller', caller)]
+    hist = ['%s(npts=%d, dt=%r)' % (first, n0, dt)]
+
+    def emit(meth, suffix, before, pre_values, err):
+        after = [words(a) for _, a in held]
+        qual = 'single.%s.%s%s' % (cls, meth, suffix)
+        v = s.values
+        shares_caller = any(isinstance(v, np.ndarray) and isinstance(a, np.ndarray) and np.shares_memory(v, a) for _, a in held) or any(v is a for _, a in held)
+        coq, isnd, shares_old = meth_case(cls, qual, s, (before, after), None if err else pre_values, shares_caller)
+        tm = s.time
+        replay = {'function': qual, 'history': list(hist), 'flavour': g.flavour, 'args': {'caller_arrays': {k: core.jsonable(a) for k, a in held}, 'dt': dt},
+                  'changed_caller_arrays': [k for (k, _), b, a in zip(held, before, after) if b != a], 'values_shares_memory_with_caller_array': shares_caller,
+                  'values_is_numeric_ndarray': isnd, 'npts': int(s.npts), 'len_values': len(s.values) if hasattr(s.values, '__len__') else None,
+                  'values_buffer_kept': shares_old, 'raised': err, 'len_time': int(len(tm)), 'time_first_last': [float(tm[0]), float(tm[-1])] if len(tm) else [],
+                  'dt_times_npts_minus_1': float(s.dt * (s.npts - 1))}
+        cases.append(Case(coq, replay, qual, nontrivial=True, klass='history[%s,%s,%s]' % (cls, g.flavour, tag)))
+
+    emit(first, '', [words(a) for _, a in held], None, None)
+    for name, arg in steps:
+        suffix, passed = '', []
+        if name == 'reset_values':
+            w = g.rec(arg)
+            passed = [w]
+            thunk = lambda: s.reset_values(w)
+        elif name == 'running_average':
+            thunk = lambda: s.running_average(arg)
+        else:
+            suffix = '.get'
+            thunk = lambda: getattr(s, name)
+        for i, a in enumerate(passed):
+            held.append(('%s_arg%d_%d' % (name, i, len(held)), a))
+        before = [words(a) for _, a in held]
+        pre = s.values
+        err = None
+        with warnings.catch_warnings():
+            warnings.simplefilter('ignore')
+            with np.errstate(all='ignore'):
+                try:
+                    thunk()
+                except Exception as e:  # noqa
+                    err = '%s: %s' % (type(e).__name__, e)
+                    stats['raised'][name] = stats['raised'].get(name, 0) + 1
+        hist.append(name if arg is None else '%s(%r)' % (name, arg))
+        emit(name, suffix, before, pre, err)
+    ob = obj_snapshot(s)
+    for _, a in held:
+        if isinstance(a, np.ndarray):
+            a += 1 if a.dtype.kind in 'iu' else 1.5
+        elif isinstance(a, list) and a:
+            a[0] = a[0] + 1
+            a.append(7)
+    oa = obj_snapshot(s)
+    cases.append(Case('CVice %s %s' % (zlist(ob), zlist(oa)), {'function': 'caller write after ' + '/'.join(hist), 'args': {'class': cls, 'flavour': g.flavour, 'history': hist},
+                      'object_changed': ob != oa}, 'single.%s[caller-write]' % cls, nontrivial=True, klass='vice[%s,%s]' % (cls, g.flavour)))
+
+
+def length_histories(rep, rng, tier, cases, stats):
+    """deterministic part of the object histories: (a) records whose (dt, length) pair sits on a rounding edge of npts*dt
+    (constructor, reset_values, reset_values from / to such a length), plus a random sample of non-dyadic (dt, length) pairs;
+    (b) running_average with centred chunks 2*int(width/2)+1 around and above the record length, on short records and on a
+    long record smoothed, reset to a short one and smoothed again with the same width"""
+    k = 0
+    pairs = list(AXIS_PAIRS)
+    for _ in range(12 if tier == 'quick' else 150):
+        pairs.append((rng.choice([0.005, 0.01, 0.02, 0.025, 0.05, 0.1, 0.2, 0.004, 0.001, 0.0025, 0.04, 0.3]), rng.randint(2, 130)))
+    for dt, n in pairs:
+        g = G(rng, tier, FLAVOURS[k % 4])
+        cls = 'AccSignal' if k % 3 else 'Signal'
+        same_dt = [m for d, m in AXIS_PAIRS if d == dt and m != n and m < 300] or [7, 12]
+        other = same_dt[k % len(same_dt)]
+        if k % 2 == 0:
+            scripted_history(rep, g, cls, dt, n, 'ctor', [('time', None), ('reset_values', other), ('time', None)][:3 if n < 300 else 1], cases, stats, 'axis')
+        else:
+            scripted_history(rep, g, cls, dt, other, 'reset' if k % 4 == 1 else 'ctor', [('reset_values', n), ('time', None)], cases, stats, 'axis')
+        k += 1
+    scripts = [(6, [('running_average', 5), ('running_average', 6), ('running_average', 7), ('running_average', 9)]),
+               (5, [('running_average', 9)]),
+               (8, [('running_average', 7), ('running_average', 8), ('running_average', 9.5), ('running_average', 12), ('running_average', 17), ('values', None)]),
+               (40, [('running_average', 9), ('reset_values', 6), ('running_average', 9), ('time', None)]),
+               (64, [('running_average', 20), ('reset_values', 12), ('running_average', 20), ('reset_values', 30), ('running_average', 20)]),
+               (4, [('running_average', 4), ('running_average', 40)]),
+               (9, [('running_average', 9), ('running_average', 10), ('running_average', 11)]),
+               (2, [('running_average', 2), ('running_average', 3)])]
+    for n, steps in scripts:
+        for fl in (FLAVOURS if tier != 'quick' else [FLAVOURS[k % 4], FLAVOURS[(k + 1) % 4]]):
+            g = G(rng, tier, fl)
+            scripted_history(rep, g, 'AccSignal' if k % 2 else 'Signal', gens.dyadic_dt(rng, 3, 7), n, 'ctor' if k % 3 else 'reset', steps, cases, stats, 'chunk>=record')
+            k += 1
+
+
 # ----------------------------------------------------------------------------- run
 def run(rep, rng, tier):
     res, gen_err = regen()
@@ -624,6 +741,7 @@ def run(rep, rng, tier):
     for k in range(nh // 10):      # clusters built from a list of float64 arrays of different lengths
         g = G(rng, tier, 'farr')
         cluster_history(rep, g, cases, stats, unequal=True)
+    length_histories(rep, rng, tier, cases, stats)
     rep.extra['functions_exercised'] = len(exercised)
     rep.extra['functions_without_generator'] = sorted(stats['no_generator'])
     rep.extra['calls_that_raised'] = stats['raised']
